@@ -64,7 +64,8 @@ def check(prog: Program, tier: str) -> Result:
     _r17_10(prog, res)
     _r17_11(prog, res)
     _r17_12(prog, res)
-    res.floors.update({"R17.11": 3, "R17.10": 3, "R17.9": 3, "R17.1": 12, "R17.2": 10, "R17.3": 4, "R17.4": 40, "R17.5": 6, "R17.6": 4, "R17.7": 2, "R17.8": 1})
+    _r17_13(prog, res)
+    res.floors.update({"R17.13": 2, "R17.12": 1, "R17.11": 3, "R17.10": 3, "R17.9": 3, "R17.1": 12, "R17.2": 10, "R17.3": 4, "R17.4": 40, "R17.5": 6, "R17.6": 4, "R17.7": 2, "R17.8": 1})
     res.analysed["bound_claims"] = n_claims
     return res
 
@@ -153,6 +154,91 @@ def _reader_obligation(prog: Program, res: Result, fn: Func, sub: ast.Subscript)
     res.decide(single, "R17.1", fn.loc(ctor), fn.fq, f"single-operator restriction for {src}",
                "the comparison is selected by a template with exactly one operator/comparator" if single else
                "no template restricts the negated comparison to a single operator: `a < b < c` would become `a >= b >= c`")
+
+
+# ------------------------------------------------------------------------------------------------ R17.13
+def _r17_13(prog: Program, res: Result) -> None:
+    """sum(range(a, b)) is T(b) - T(a) (T(n) = n(n-1)/2) only when a <= b: an empty range sums to 0, the closed form gives
+    minus the reversed sum.  With a bound that is not a constant the order is not known when the program is rewritten.
+    Obligation for the function that builds `T(end) - T(start)` from the two bounds of a range: the construction is reached
+    only when both bounds are known integer constants (a template pinning ast.Constant(value=int), or an evaluation) - then
+    the order can be (and must be) compared."""
+    from ..pathcond import PathAnalysis, plain
+    n = 0
+    for fn in prog.funcs.values():
+        if fn.mod.name != "symbolic_math":
+            continue
+        # start, end, step = <range bounds helper>(rng)
+        bounds = None
+        for a in walk_own(fn.node):
+            if isinstance(a, ast.Assign) and isinstance(a.targets[0], ast.Tuple) and len(a.targets[0].elts) == 3 and isinstance(a.value, ast.Call) \
+                    and all(isinstance(t, ast.Name) for t in a.targets[0].elts):
+                r = prog.resolve_call(a.value.func, fn.mod, fn)
+                if r and r[0] == "fn" and "range" in norm(r[1].node).lower() and ".args" in norm(r[1].node):
+                    bounds = [t.id for t in a.targets[0].elts]
+        if not bounds:
+            continue
+        start, end = bounds[0], bounds[1]
+        pa = PathAnalysis(prog, fn)
+        from ..defuse import bindings
+
+        def int_reader(call: ast.AST) -> bool:
+            """a call of a repository helper that answers the int value of a constant node (or None)"""
+            if not isinstance(call, ast.Call):
+                return False
+            r_ = prog.resolve_call(call.func, fn.mod, fn)
+            return bool(r_ and r_[0] == "fn" and "Constant(value=int)" in norm(r_[1].node).replace(" ", ""))
+
+        def known_constant(w, v: str) -> bool:
+            tok = v
+            for f in w.facts:
+                if f[0] != "lit":
+                    continue
+                t = plain(f[1]).replace(" ", "")
+                if f[2] and t.startswith(f"match_template({tok},") and "Constant(value=int)" in t:
+                    return True
+                if not f[2] and t.startswith("is(") and t.endswith(",None)"):
+                    x = t[3:-6]
+                    for _s, d in bindings(fn).get(x, []):
+                        # x = reader(v)   or   x, y = reader(v), reader(u)
+                        cands = [d] if d is not None else []
+                        if isinstance(_s, ast.Assign) and isinstance(_s.targets[0], ast.Tuple) and isinstance(_s.value, ast.Tuple):
+                            cands = [val for tg, val in zip(_s.targets[0].elts, _s.value.elts) if isinstance(tg, ast.Name) and tg.id == x]
+                        if any(int_reader(c_) and c_.args and norm(c_.args[0]) == v for c_ in cands):
+                            return True
+                if not f[2] and t.startswith("in(None,"):
+                    L = t[len("in(None,"):-1]
+                    for _s, d in bindings(fn).get(L, []):
+                        if isinstance(d, ast.ListComp) and int_reader(d.elt) and v in {x_.id for x_ in ast.walk(d.generators[0].iter) if isinstance(x_, ast.Name)}:
+                            return True
+            return False
+        sites = []
+        for b in walk_own(fn.node):
+            if isinstance(b, ast.Call) and ast_class_name(prog, fn, b.func) == "BinOp":
+                kw = {k.arg: k.value for k in b.keywords}
+                if ast_class_name(prog, fn, kw.get("op")) == "Sub" and {start, end} <= {x.id for x in ast.walk(b) if isinstance(x, ast.Name)}:
+                    sites.append((b, f"T({end}) - T({start})"))
+            if isinstance(b, ast.Call) and (prog.dotted(b.func) or "").endswith("sympy.Sum") and len(b.args) == 2 and isinstance(b.args[1], ast.Tuple) and len(b.args[1].elts) == 3 \
+                    and any(isinstance(x, ast.Name) for e_ in b.args[1].elts[1:] for x in ast.walk(e_)):
+                # limits that are variables of the function: do they come from the bounds of the range?
+                lim_names = {x.id for e_ in b.args[1].elts[1:] for x in ast.walk(e_) if isinstance(x, ast.Name)}
+                derived = False
+                for nm in lim_names:
+                    for _s, d in bindings(fn).get(nm, []):
+                        if d is not None and ({start, end} & {x.id for x in ast.walk(d) if isinstance(x, ast.Name)}):
+                            derived = True
+                if derived:
+                    sites.append((b, "sympy.Sum over (lower, upper) taken from the bounds"))
+        for b, what in sites:
+            n += 1
+            worlds = pa.worlds_at(b)
+            ok = bool(worlds) and all(known_constant(w, start) and known_constant(w, end) for w in worlds)
+            res.decide(ok, "R17.13", fn.loc(b), fn.fq, short(b, 70),
+                       "built only for constant integer bounds" if ok else
+                       f"the closed form ({what}) is built for bounds whose order is unknown when the program is rewritten: for an EMPTY range (start > stop) "
+                       "Python's sum is 0, the closed form is minus the reversed sum (`sum(2 for w in range(x))` -> `2 * x`: -8 instead of 0 at x = -4)")
+    if n == 0:
+        res.undecided("R17.13", "pyrefact/symbolic_math.py:0", "symbolic_math", "closed form of a sum over a range", "construction not found")
 
 
 # ------------------------------------------------------------------------------------------------ R17.12
@@ -1266,6 +1352,8 @@ def _run_branch(stmts, state, c, cvar) -> None:
 from ..selftest import Variant  # noqa: E402
 
 VARIANTS = [
+    Variant("closed-form-for-unknown-bounds", "FIRE", "symbolic_math",
+            "    if start_value is None or end_value is None:\n        raise ValueError(\"The closed form needs start <= stop, which is only known for constants\")\n\n    if start_value > end_value:\n        return ast.Constant(value=0, kind=None)\n\n", "", "R17.13"),
     Variant("helper-hands-its-argument-back", "FIRE", "symbolic_math", "        raise ValueError(\"Only a range with step 1 has this closed form\")", "        return rng", "R17.12"),
     Variant("function-name-tested-in-one-branch-only", "FIRE", "symbolic_math",
             "        if node.func.id != \"sum\":\n            continue  # The closed forms below are those of sums, len([1, 2, 3]) is not 6\n\n        arg = node.args[0]\n        if core.match_template(arg, ast.Call(func=ast.Name(id=\"range\"))):\n            if any((node is not arg for node in core.walk(arg, (ast.Attribute, ast.Call)))):\n                continue\n",
